@@ -420,8 +420,29 @@ func checkBadfilterFilter(c *Ctx, filter, twin *ssa.Function, kBad int64) {
 		k := u.ConstVal(constantInt(kBad), types.Typ[types.Uint64])
 		return u.ToBool(u.Eq(u.Bin(token.AND, en, k, types.Typ[types.Uint64]), k))
 	}
+	// tailFromFirstBad: in0[k:] with k = slices.IndexFunc(in0, isBad): nothing in front of k is a
+	// badfilter rule, so a scan of the tail sees all of them
+	tailFromFirstBad := func(coll *E) bool {
+		if coll == nil || coll.Op != "slice" || coll.Args[0] != in0 || coll.Args[1] == nil || coll.Args[2] != nil {
+			return false
+		}
+		k := coll.Args[1]
+		if k.Op != "call" || k.Aux != "slices.IndexFunc" || len(k.Args) != 2 || k.Args[0] != in0 || k.Args[1].Op != "lambda" || len(k.Args[1].Args) != 1 {
+			return false
+		}
+		pred := k.Args[1].Args[0]
+		var bv *E
+		for _, x := range u.Collect(pred, func(x *E) bool { return x.Op == "bvar" }) {
+			bv = x
+		}
+		if bv == nil || pred.Op != "bool" {
+			return false
+		}
+		probe := u.mk("index", "", bv.Typ, in0, u.mk("sym", "any-position", types.Typ[types.Int]))
+		return u.SubstBool(pred.B, map[string]*E{bv.key: probe}) == isBad(probe)
+	}
 	fromInput := func(e *E) bool {
-		return e != nil && e.Op == "index" && e.Args[0] == in0
+		return e != nil && e.Op == "index" && (e.Args[0] == in0 || tailFromFirstBad(e.Args[0]))
 	}
 	// values that reach a return
 	reachRet := map[ssa.Value]bool{}
@@ -492,7 +513,7 @@ func checkBadfilterFilter(c *Ctx, filter, twin *ssa.Function, kBad int64) {
 		cont := contCond(u, s, l)
 		rc := s.RCAt(cp.call)
 		want := u.bdd.And(cont, isBad(cp.elem))
-		full := ro != nil && ro.Full && s.Env[ro.Coll] == in0 && onlyExhaustionExit(l)
+		full := ro != nil && ro.Full && (s.Env[ro.Coll] == in0 || tailFromFirstBad(s.Env[ro.Coll])) && onlyExhaustionExit(l)
 		exact := u.bdd.And(rc, cont) == u.bdd.And(want, s.RC[l.Header])
 		collOK = full && exact
 		c.Check(collOK, "C08.R1", shortFn(filter)+": collection holds every badfilter rule of the input", cp.call.Pos(),
